@@ -93,6 +93,11 @@ class Check:
             self.violation(key or name, name + (": " + detail if detail else ""), dict(kind="structural", name=name, detail=detail, funcs=list(funcs)))
         return ob
 
+    def soft(self, name, ok, funcs=(), mode="structure", detail=""):
+        """an expectation about the *shape* of the code that the harness relies on but the property does not state:
+        a failure is not a violation by itself; it leaves the check undecided and hands over to the native battery"""
+        return self.add(Ob(name, "unsat" if ok else "sat", 0.0, funcs, mode, detail))
+
     def note_inconclusive(self, msg):
         self.inconclusive.append(msg)
 
